@@ -55,7 +55,7 @@ ROUTES = ['fresh', 'data_assigned', 'data_inplace', 'data_refilled', 'sampling_a
           # histories through a NON-default representation (sides), staleness and the scale_by_freq toggle; all end in the default layout
           'sides_first', 'sides_then_stale', 'sides_same_after_stale', 'stale_then_scale_toggle', 'datatype_flip', 'sides_call_call',
           'data_other_length', 'stale_then_reassign_all', 'sides_roundtrip', 'sides_chain', 'stale_sides_call', 'detrend_toggle',
-          'deepcopy_equal', 'deepcopy_independent', 'shallow_copy_mutated']
+          'deepcopy_equal', 'deepcopy_independent', 'second_instance_after', 'second_instance_between', 'shallow_copy_mutated']
 NO_AXIS_ROUTES = {'shallow_copy_mutated'}       # a shallow copy shares the frequency-axis object with its original (by definition of a shallow copy)
 
 
@@ -201,6 +201,20 @@ def via(make, x, NFFT, sampling, scale_by_freq, route='fresh', prev=None):
         _ = q.psd
         p.scale_by_freq = scale_by_freq
         p.data = x
+    elif route == 'second_instance_after':
+        # ANOTHER object of the same class is constructed and evaluated (other data, other sampling) after this one was: nothing of it may
+        # show through this one (state kept at class or module level)
+        p = make(x, NFFT, sampling, scale_by_freq); _ = p.psd
+        q = make(other, NFFT, sampling * 3, scale_by_freq); q()
+    elif route == 'second_instance_between':
+        # both objects exist before either is evaluated; the other one is evaluated last
+        p = make(x, NFFT, sampling, scale_by_freq)
+        q = make(other, NFFT, sampling * 3, not scale_by_freq)
+        p(); q()
+        try:
+            q.data = other * 2; _ = q.psd
+        except Exception:
+            pass
     elif route == 'shallow_copy_mutated':
         import copy
         if scale_by_freq:
